@@ -192,7 +192,7 @@ KnownFinding(step, c) ==
     [] c = "C07_one" -> IF KF_C07(step) # "" THEN KF_C07(step) ELSE KF_C07_pairing(step)
     [] c = "C11_cross" -> KF_C11_cross(step)
     [] c = "C06_grammar" -> KF_C06_grammar(step)
-    [] c = "C06_denotes" -> IF ShadowExplains(step.src, SpecReadProvN(step.ast)) THEN "KF-C03-shadow" ELSE ""
+    [] c = "C06_denotes" -> IF ShadowExplains(step.src, SpecReadProvN(step.ast)) \/ ShadowExplains(step.src, SpecReadProvNS(step.ast, TRUE)) THEN "KF-C03-shadow" ELSE ""
     [] c = "C10_read_json" -> IF KF_default(step) # "" THEN KF_default(step) ELSE IF ShadowExplains(step.src, SpecReadJSON(step.ast)) THEN "KF-C03-shadow" ELSE ""
     [] OTHER -> ""
 
